@@ -190,9 +190,13 @@ def classify(read_scope, name, alt_obj, comp_names, node, builder):
 
 
 def run(check):
-    quick = check.tier == 'quick'
     check.prove(extra_targets=('drv_flow',))
     S = flowgraph.load_supp()
+    judge(check, S, corpus(check))
+
+
+def judge(check, S, programs):
+    quick = check.tier == 'quick'
     u = S['util']
     nm = S['name']
     tmp = '/tmp/verif-c05-%d' % os.getpid()
@@ -204,7 +208,7 @@ def run(check):
     sym_mismatch = 0
     nontrivial = 0
     known_seen = {}
-    for label, src in corpus(check):
+    for label, src in programs:
         try:
             gv = flowgraph.analyse(S, src, fname, project)
         except RecursionError:
@@ -327,7 +331,15 @@ def run(check):
 
 def replay(path):
     data = json.load(open(path))
-    print('recorded failing inputs:', len(data.get('failing_inputs', [])))
-    for item in data.get('failing_inputs', [])[:5]:
-        print(item['what'], json.dumps(item['replay'])[:400])
-    return 1 if data.get('failing_inputs') else 0
+    S = flowgraph.load_supp()
+    progs = []
+    for k, item in enumerate(data.get('failing_inputs', [])):
+        src = item['replay'].get('source', '')
+        if '\n' in src and src not in [p[1] for p in progs]:
+            progs.append(('replay%d' % k, src))
+    chk = common.Check('C05', 'quick', 0)
+    judge(chk, S, progs)
+    for f in chk.failures[:10]:
+        print('STILL FAILS:', f['what'], json.dumps(f['replay'])[:300])
+    print('REPLAY: %d recorded programs re-judged, %d failing reads now' % (len(progs), len(chk.failures)))
+    return 1 if chk.failures else 0
